@@ -324,7 +324,7 @@ func (c *userTypesCollector) collectUserTypesFromTypesListConstraint(node intern
 	}
 
 	for _, name := range list.Names() {
-		if name[0] == '@' {
+		if len(name) > 0 && name[0] == '@' {
 			c.addType(name)
 		}
 	}
@@ -342,7 +342,7 @@ func (c *userTypesCollector) collectUserTypesFromTypeConstraint(node internalSch
 	}
 
 	name := typ.Bytes().Unquote().String()
-	if name[0] == '@' {
+	if len(name) > 0 && name[0] == '@' {
 		c.addType(name)
 	}
 }
@@ -359,7 +359,7 @@ func (c *userTypesCollector) collectUserTypesFromAllOfConstraint(node internalSc
 	}
 
 	for _, name := range allOf.SchemaNames() {
-		if name[0] == '@' {
+		if len(name) > 0 && name[0] == '@' {
 			c.addType(name)
 		}
 	}
